@@ -178,3 +178,12 @@ Definition print_fs (lenient : bool) (fs : fsys) (root : path) : predicted :=
   predict (run_fs fs root (print_cmd_safe lenient)).
 Definition balance_fs (cfg : balance_cfg) (fs : fsys) (root : path) : predicted :=
   predict (run_fs fs root (balance_table_safe cfg)).
+
+(* the pinned commands on the same (repaired) loader: what the unpatched code does on an
+   acyclic tree *)
+Definition check_fs_pinned (lenient : bool) (fs : fsys) (root : path) : predicted :=
+  predict (run_fs fs root (check_cmd lenient)).
+Definition print_fs_pinned (lenient : bool) (fs : fsys) (root : path) : predicted :=
+  predict (run_fs fs root (print_cmd lenient)).
+Definition balance_fs_pinned (cfg : balance_cfg) (fs : fsys) (root : path) : predicted :=
+  predict (run_fs fs root (balance_table cfg)).
